@@ -346,6 +346,74 @@ pub fn run(ctx: &Ctx) -> Report {
     }
   }
   report.model_requests = model.requests;
+  // ---- further states and spellings, one scenario each: (label, set-up, arguments, standard input, exit status, paths that change)
+  {
+    type Setup = Box<dyn Fn(&Sandbox) + Sync>;
+    fn link(sb: &Sandbox, target: &str, at: &str) {
+      if let Some(parent) = sb.path(at).parent() {
+        let _ = std::fs::create_dir_all(parent);
+      }
+      let _ = std::os::unix::fs::symlink(target, sb.path(at));
+    }
+    let scenarios: Vec<(&str, Setup, Vec<&str>, Option<Vec<u8>>, i32, Vec<&str>)> = vec![
+      ("empty-file-at-output", Box::new(|sb: &Sandbox| sb.write("in/content.torrent", b"")), vec!["--input", "in/content"], None, 1, vec![]),
+      ("empty-file-at-output-dry-run", Box::new(|sb: &Sandbox| sb.write("in/content.torrent", b"")), vec!["--input", "in/content", "--dry-run"], None, 1, vec![]),
+      ("empty-file-at-explicit-output", Box::new(|sb: &Sandbox| sb.write("out/t.torrent", b"")), vec!["--input", "in/content", "--output", "out/t.torrent"], None, 1, vec![]),
+      ("output-through-symlinked-directory-then-dotdot", Box::new(|sb: &Sandbox| { sb.mkdir("real/deep"); link(sb, "real/deep", "link"); }), vec!["--input", "in/content", "--output", "link/../here.torrent"], None, 0, vec!["here.torrent"]),
+      ("force-leaves-sibling-tmp-alone", Box::new(|sb: &Sandbox| { sb.write("out/t.tmp", b"someone else's"); sb.write("out/t.torrent.tmp", b"and this"); sb.write("out/t.torrent", b"old old old"); }), vec!["--input", "in/content", "--output", "out/t.torrent", "--force"], None, 0, vec!["out/t.torrent"]),
+      ("directory-input-with-trailing-slash", Box::new(|sb: &Sandbox| { sb.write("in/d/a", b"alpha"); }), vec!["--input", "in/d/"], None, 0, vec!["in/d.torrent"]),
+      ("directory-input-with-trailing-slash-dot", Box::new(|sb: &Sandbox| { sb.write("in/d/a", b"alpha"); }), vec!["--input", "in/d/."], None, 0, vec!["in/d.torrent"]),
+      ("symlink-cycle-followed", Box::new(|sb: &Sandbox| { sb.write("in/d/sub/a", b"alpha"); link(sb, "..", "in/d/sub/up"); }), vec!["--input", "in/d", "--follow-symlinks"], None, 1, vec![]),
+      ("root-is-a-link-to-a-file-not-followed", Box::new(|sb: &Sandbox| link(sb, "content", "in/link")), vec!["--input", "in/link"], None, 1, vec![]),
+      ("root-is-a-link-to-a-directory-not-followed", Box::new(|sb: &Sandbox| { sb.write("in/d/a", b"alpha"); link(sb, "d", "in/dlink"); }), vec!["--input", "in/dlink"], None, 1, vec![]),
+      ("explicit-output-without-torrent-extension", Box::new(|sb: &Sandbox| sb.write("out/out.torrent", b"not to be touched")), vec!["--input", "in/content", "--output", "out/out.bin"], None, 0, vec!["out/out.bin"]),
+      ("explicit-output-without-any-extension", Box::new(|_sb: &Sandbox| {}), vec!["--input", "in/content", "--output", "out/plain"], None, 0, vec!["out/plain"]),
+      ("existing-output-without-extension-blocks", Box::new(|sb: &Sandbox| sb.write("out/plain", b"there")), vec!["--input", "in/content", "--output", "out/plain"], None, 1, vec![]),
+      ("name-decides-default-output", Box::new(|sb: &Sandbox| sb.write("in/content.torrent", b"an older torrent of the input's own name")), vec!["--input", "in/content", "--name", "bar"], None, 0, vec!["in/bar.torrent"]),
+      ("name-decides-default-output-blocked", Box::new(|sb: &Sandbox| sb.write("in/bar.torrent", b"there")), vec!["--input", "in/content", "--name", "bar"], None, 1, vec![]),
+      ("output-is-a-link-to-a-file-no-force", Box::new(|sb: &Sandbox| { sb.write("elsewhere/real.torrent", b"precious"); link(sb, "../elsewhere/real.torrent", "out/t.torrent"); }), vec!["--input", "in/content", "--output", "out/t.torrent"], None, 1, vec![]),
+      ("stdin-to-existing-output", Box::new(|sb: &Sandbox| sb.write("out/t.torrent", b"there")), vec!["--input", "-", "--name", "n", "--output", "out/t.torrent"], Some(b"bytes".to_vec()), 1, vec![]),
+      ("show-and-link-do-not-write-more", Box::new(|_sb: &Sandbox| {}), vec!["--input", "in/content", "--output", "out/t.torrent", "--show", "--link"], None, 0, vec!["out/t.torrent"]),
+    ];
+    let replay_labels: Option<Vec<String>> = super::replay_cases(ctx).map(|rc| rc.iter().filter_map(|v| v.get("scenario").and_then(|s| s.as_str()).map(|s| s.to_string())).collect());
+    let results: Vec<(usize, crate::run::Out, Vec<String>)> = scenarios
+      .par_iter()
+      .enumerate()
+      .filter(|(_, sc)| replay_labels.as_ref().map(|l| l.iter().any(|x| x == sc.0)).unwrap_or(true))
+      .map(|(i, (_, setup, args, stdin, _, _))| {
+        let sb = Sandbox::new(&ctx.work, "c09x");
+        sb.write("in/content", b"single file content");
+        sb.mkdir("out");
+        sb.write("bystander", b"unrelated");
+        setup(&sb);
+        let before = snapshot(&sb.root);
+        let mut full = vec!["torrent", "create"];
+        full.extend(args.iter().copied());
+        let mut cmd = Cmd::new(&ctx.imdl, &full).cwd(&sb.root);
+        if let Some(b) = stdin {
+          cmd = cmd.stdin(b);
+        }
+        let out = cmd.run();
+        let after = snapshot(&sb.root);
+        let mut changed: Vec<String> = after.iter().filter(|(k, v)| before.get(*k) != Some(*v)).map(|(k, _)| k.clone()).chain(before.keys().filter(|k| !after.contains_key(*k)).cloned()).collect();
+        changed.sort();
+        (i, out, changed)
+      })
+      .collect();
+    for (i, out, changed) in results {
+      let (label, _, args, _, want_exit, want_changed) = &scenarios[i];
+      let case = json!({"scenario": label, "args": args});
+      report.case(Some(fnv_str(&case.to_string())));
+      report.hit(&format!("scenario:{label}"));
+      let mut want: Vec<String> = want_changed.iter().map(|s| s.to_string()).collect();
+      want.sort();
+      if out.signal.is_some() || out.code != Some(*want_exit) {
+        report.fail("property", "create-filesystem-effect", case, format!("exit {:?} (signal {:?}), documented behaviour gives {want_exit}: {}", out.code, out.signal, out.stderr_s().lines().last().unwrap_or("")));
+      } else if changed != want {
+        report.fail("property", "create-filesystem-effect", case, format!("changed paths {changed:?}, documented behaviour changes exactly {want:?}"));
+      }
+    }
+  }
   if ctx.replay.is_some() {
     return report;
   }
